@@ -90,6 +90,7 @@ func fsFromFiles(files []File, dirs []string) *simos.FS {
 type IOCfg struct {
 	Sector    int // bytes per sector write
 	FileChunk int // max bytes per Read of an open regular file (0 = unlimited)
+	StdoutTTY bool
 }
 
 // runProc runs one process on fs (which it may modify).
@@ -102,7 +103,7 @@ func runProc(fs *simos.FS, spec ProcSpec, io IOCfg, prevStdout []byte) ProcResul
 		Bin:    spec.Bin,
 		Argv:   append([]string{arg0}, spec.Argv...),
 		FS:     fs,
-		Sector: io.Sector, FileChunk: io.FileChunk,
+		Sector: io.Sector, FileChunk: io.FileChunk, StdoutTTY: io.StdoutTTY,
 		Faults: append([]simos.Fault(nil), spec.Faults...),
 	}
 	if s := spec.Stdin; s != nil {
